@@ -716,6 +716,8 @@ static std::string show1(const float& v) {
   return buf;
 }
 static std::string show1(const char& v) { return "c:" + hx(std::string(1, v)); }
+static std::string show1(const signed char& v) { return "c:" + hx(std::string(1, (char)v)); }
+static std::string show1(const unsigned char& v) { return "c:" + hx(std::string(1, (char)v)); }
 static std::string show1(const std::string& v) { return hx(v); }
 template <class C> static std::string showSeq(const C& c) {
   std::string o = "[";
@@ -734,6 +736,15 @@ struct CommaPunct : std::numpunct<char> {
   std::string do_grouping() const override { return "\3"; }
   std::string do_truename() const override { return "wahr"; }
   std::string do_falsename() const override { return "falsch"; }
+};
+
+// a ctype facet of a caseless script: tolower/toupper change nothing.  Parser<bool> must lower-case with the classic
+// locale, so `YES` has to stay `true` when this is (part of) the global locale
+struct CaselessCtype : std::ctype<char> {
+  char do_tolower(char c) const override { return c; }
+  const char* do_tolower(char*, const char* hi) const override { return hi; }
+  char do_toupper(char c) const override { return c; }
+  const char* do_toupper(char*, const char* hi) const override { return hi; }
 };
 
 template <class T> static std::string getOnce(const std::string& text) {
@@ -758,7 +769,7 @@ template <std::size_t n> static std::string getBitset(const std::string& text) {
 }
 // run under the classic global locale and under one with ',' as decimal point and '.' grouping
 template <class F> static std::string bothLocales(F f, std::string& oracle) {
-  static std::locale comma(std::locale::classic(), new CommaPunct);
+  static std::locale comma(std::locale(std::locale::classic(), new CommaPunct), new CaselessCtype);
   std::locale::global(std::locale::classic());
   std::string a = f();
   std::locale::global(comma);
@@ -856,6 +867,12 @@ static std::string refScalar(char kind, const std::string& text, bool sg, int bi
   switch (kind) {
     case 'i': return refInt(stripC(text), sg, bits);
     case 'b': return refBool(text);
+    case 'B': {  // `s >> bool` (no boolalpha): a literal that fits a long and has the value 0 or 1
+      std::string r = refInt(stripC(text), true, 64);
+      if (r == "0") return "false";
+      if (r == "1") return "true";
+      return "ERR:Range";
+    }
     case 'd': return refDouble(stripC(text));
     case 'f': return refFloating<float>(stripC(text));
     case 'c': return refChar(stripC(text));
@@ -902,11 +919,11 @@ static std::string refSeq(char kind, const std::string& text, bool sg, int bits,
   std::vector<std::string> toks;
   if (!duneSplit && kind == 'c') {   // characters read from one stream need no blank between them
     for (auto& t : toks0) for (char c : t) toks.push_back(std::string(1, c));
-  } else if (!duneSplit && (kind == 'i' || kind == 'd' || kind == 'f')) {
+  } else if (!duneSplit && (kind == 'i' || kind == 'B' || kind == 'd' || kind == 'f')) {
     for (auto& t : toks0) {
       size_t i = 0;
       while (i < t.size()) {
-        size_t l = literalLen(t, i, kind != 'i');
+        size_t l = literalLen(t, i, kind != 'i' && kind != 'B');
         if (l == 0) return "ERR:Range";
         toks.push_back(t.substr(i, l));
         i += l;
@@ -947,6 +964,9 @@ static Result execGet(const std::vector<std::string>& w) {
   SCALAR("ulong", unsigned long long, 'i', false, 64) SCALAR("short", short, 'i', true, 16)
   SCALAR("ushort", unsigned short, 'i', false, 16) SCALAR("bool", bool, 'b', true, 32) SCALAR("dbl", double, 'd', true, 0)
   SCALAR("flt", float, 'f', true, 0) SCALAR("chr", char, 'c', true, 0)
+  SCALAR("lng", long, 'i', true, 64) SCALAR("ulng", unsigned long, 'i', false, 64)
+  SCALAR("schr", signed char, 'c', true, 0) SCALAR("uchr", unsigned char, 'c', true, 0)
+  ARRS("ab", bool, 'B', true)
   ARRS("af", float, 'f', true) ARRS("ac", char, 'c', true) FD(1) FD(2)
   VEC("vf", float, 'f', true) VEC("vc", char, 'c', true)
   if (ty == "str") { run([&] { return getOnce<std::string>(text); }); want = "s:" + refScalar('s', text, true, 0); } else
@@ -959,7 +979,7 @@ static Result execGet(const std::vector<std::string>& w) {
   stat("get_" + ty);
   // a negative literal for an unsigned target is left undetermined by the documentation (the library negates
   // modulo 2^n): the real code was run (no crash, no locale dependence), the answer itself is not compared
-  if ((ty == "uint" || ty == "ulong" || ty == "ushort" || ty == "vu" || ty.rfind("au", 0) == 0) && has(text, '-')) {
+  if ((ty == "uint" || ty == "ulong" || ty == "ulng" || ty == "ushort" || ty == "vu" || ty.rfind("au", 0) == 0) && has(text, '-')) {
     stat("get_no_claim");
     if (res.oracle == "ok") res.oracle = "ok trivial";
     res.impl = "noclaim";
@@ -1163,6 +1183,21 @@ static std::string genName(Rng& r) {
     static const std::vector<std::string> odd = {"a-b", "a b", "x/y", "q'", "d\"", "a]b", "+", "*", "a\tb", "\xc3\xa4"};
     return r.pick(odd);
   }
+  if (r.coin(1, 20)) {
+    // round four: any byte the dialect allows in a key component — every printable ASCII character except the ones
+    // with a meaning ('.', '=', '#'), not '[' in front, no blank at either end; inner blanks and high bytes are legal
+    std::string s;
+    long n = r.range(1, 4);
+    for (long i = 0; i < n; ++i) {
+      char c;
+      do {
+        c = r.coin(1, 12) ? (r.coin() ? ' ' : char(0x80 + r.below(128))) : char(33 + r.below(94));
+      } while (c == '.' || c == '=' || c == '#' || (i == 0 && (c == '[' || c == ' ')) || (i == n - 1 && c == ' '));
+      s.push_back(c);
+    }
+    stat("name_any_byte");
+    return s;
+  }
   return r.pick(names);
 }
 static std::string genValue(Rng& r) {
@@ -1175,7 +1210,12 @@ static std::string genValue(Rng& r) {
     static const std::string al = "abcXYZ019 _-+*/.,:;!?()[]{}<>=#'\"\t\n\\|~";
     std::string s;
     long n = r.range(0, 12);
-    for (long i = 0; i < n; ++i) s.push_back(al[r.below(al.size())]);
+    // round four: half of the random values draw from all printable ASCII characters (+ tab, newline, high bytes), so
+    // that no character is excluded from the first / last position of a value by the choice of a hand-picked alphabet
+    bool any = r.coin();
+    for (long i = 0; i < n; ++i)
+      s.push_back(!any ? al[r.below(al.size())] : r.coin(1, 10) ? "\t\n\r\xe9\xff"[r.below(5)] : char(32 + r.below(95)));
+    if (any) stat("value_any_byte");
     return s;
   }
   return r.pick(vals);
@@ -1446,7 +1486,16 @@ static std::string genNopt(Rng& r, const Args&) {
     long k = r.range(0, 11);
     std::string val = genValue(r);
     val.erase(std::remove(val.begin(), val.end(), '\0'), val.end());
-    if (k <= 4) args.push_back(val.rfind("--", 0) == 0 || val == "-h" ? "v" : val);
+    if (k <= 4 && r.coin(1, 6)) {
+      // round four: positional arguments that merely look like options: `-c` / `-cc` for any printable character (only
+      // -h, --help and --key=value have a meaning)
+      std::string a = "-";
+      a.push_back(char(33 + r.below(94)));
+      if (r.coin(1, 3)) a.push_back(char(33 + r.below(94)));
+      args.push_back(a.rfind("--", 0) == 0 ? "-x" : a);   // "-h" may come out: it is the help request, which the oracle knows
+      stat("nopt_dashlike_positional");
+    }
+    else if (k <= 4) args.push_back(val.rfind("--", 0) == 0 || val == "-h" ? "v" : val);
     else if (k <= 8 && !kws.empty()) args.push_back("--" + r.pick(kws) + "=" + val);
     else if (k == 9) args.push_back("--" + genName(r) + "=" + val);
     else if (k == 10) args.push_back(r.coin(1, 3) ? "--help" : "--novalue");
@@ -1521,7 +1570,7 @@ static std::string genScalarText(Rng& r, char kind, int bits, bool sg) {
   else if (kind == 'c') {
     static const std::vector<std::string> c = {"a", "Z", "1", "#", "-", "\xff", "\x01", " a", "a ", "\va\f", "ab", "a b", "", " ", "\t", "a\n", "''", "="};
     return r.pick(c);
-  } else if (kind == 'b') {
+  } else if (kind == 'b' || kind == 'B') {
     static const std::vector<std::string> b = {"yes", "no", "true", "false", "YES", "No", "TRUE", "fAlSe", "1", "0", "2", "-1", "10", "y", "n",
                                                "on", "off", "", "yess", "tru", "0x1", "1.0", "00", "+0", "yes ", " no", "-1", "-2", "-17",
                                                "+3", "-0", " 1", "1 ", "-2147483648", "2147483648"};
@@ -1544,10 +1593,10 @@ static std::string genScalarText(Rng& r, char kind, int bits, bool sg) {
 }
 static std::string genGet(Rng& r, const Args&) {
   static const std::vector<std::string> scal = {"int", "int", "uint", "long", "ulong", "short", "ushort", "bool", "str", "dbl", "dbl",
-                                                "flt", "flt", "chr"};
+                                                "flt", "flt", "chr", "lng", "ulng", "schr", "uchr"};
   static const std::vector<std::string> seqs = {"ai0", "ai1", "ai2", "ai3", "au0", "au1", "au2", "au3", "as0", "as1", "as2", "as3", "ad0", "ad1",
                                                 "ad2", "ad3", "fi1", "fi3", "bs0", "bs1", "bs3", "bs8", "vi", "vu", "vb", "vs", "vd",
-                                                "af0", "af1", "af2", "af3", "ac0", "ac1", "ac2", "ac3", "fd1", "fd2", "vf", "vc"};
+                                                "af0", "af1", "af2", "af3", "ac0", "ac1", "ac2", "ac3", "fd1", "fd2", "vf", "vc", "ab0", "ab1", "ab2", "ab3", "ab2", "ab3"};
   std::string ty, text;
   // element kind / width / signedness of a target type name (explicit table: a positional test on the letters
   // once classified "bs3" and "ushort" as strings, so bitsets and unsigned shorts never saw their own literals)
@@ -1558,11 +1607,12 @@ static std::string genGet(Rng& r, const Args&) {
     else if (t == "str" || t == "vs" || starts("as")) kind = 's';
     else if (t == "dbl" || t == "vd" || starts("ad") || starts("fd")) kind = 'd';
     else if (t == "flt" || t == "vf" || starts("af")) kind = 'f';
-    else if (t == "chr" || t == "vc" || starts("ac")) kind = 'c';
+    else if (t == "chr" || t == "schr" || t == "uchr" || t == "vc" || starts("ac")) kind = 'c';
+    else if (starts("ab")) kind = 'B';
     else {
       if (t == "uint" || t == "vu" || starts("au")) sg = false;
-      if (t == "long") bits = 64;
-      if (t == "ulong") { bits = 64; sg = false; }
+      if (t == "long" || t == "lng") bits = 64;
+      if (t == "ulong" || t == "ulng") { bits = 64; sg = false; }
       if (t == "short") bits = 16;
       if (t == "ushort") { bits = 16; sg = false; }
     }
@@ -1590,12 +1640,14 @@ static std::string genGet(Rng& r, const Args&) {
         if (kind == 'i') { int mb = sg ? bits - 1 : bits; long long v = (long long)((r.next() >> 1) & ((1ull << r.range(1, std::min(mb, 62))) - 1)); t = std::to_string(sg && r.coin(1, 3) ? -v : v); }
         else if (kind == 'd' || kind == 'f') { static const std::vector<std::string> d = {"0", "1", "-2.5", "3.25", ".5", "1e3", "-1E-2", "0.1", "16777217", "1e30", "7.", "+4"}; t = r.pick(d); }
         else if (kind == 'c') { static const std::vector<std::string> c = {"a", "b", "Z", "7", "#", "-"}; t = r.pick(c); }
+        else if (kind == 'B') { static const std::vector<std::string> b = {"0", "1", "1", "0", "+1", "-0", "01", "000", "+0"}; t = r.pick(b); }
         else { static const std::vector<std::string> b = {"yes", "no", "true", "false", "1", "0", "TRUE", "No", "2", "-1", "fAlSe", "YES"}; t = r.pick(b); }
       }
       else if (r.coin(1, 12)) t = genScalarText(r, kind, bits, sg);
       else if (kind == 'i') t = genIntText(r, bits, sg);
       else if (kind == 'd' || kind == 'f') t = genDblText(r);
       else if (kind == 'c') { static const std::vector<std::string> c = {"a", "b", "Z", "7", "#", "ab", "\xe9", "-"}; t = r.pick(c); }
+      else if (kind == 'B') { static const std::vector<std::string> b = {"0", "1", "1", "0", "2", "-1", "10", "yes", "true", "false", "x", "1.0", "-0", "+1", "9223372036854775808", "00000000000000000001", "1e0"}; t = r.pick(b); }
       else { static const std::vector<std::string> b = {"yes", "no", "true", "false", "1", "0", "TRUE", "No", "2", "x", "-1", "-3"}; t = r.pick(b); }
       text += (i ? r.pick(seps) : "") + t;
     }
